@@ -1046,28 +1046,46 @@ fn do_command_substitution_for_dot(sh: &mut Shell, tokens: &mut types::Tokens) {
                 idx += 1;
                 continue;
             }
-            let mut _token = token.clone();
+            // left to right: a `$(...)` that starts before the next
+            // backquote is copied as it is (its backquotes belong to its own
+            // command line, which the `$(...)` pass runs); a backquote pair
+            // that starts first is run (a `$(...)` inside it belongs to its
+            // command line)
             let mut _item = String::new();
-            let mut _head = String::new();
-            let mut _output = String::new();
-            let mut _tail = String::new();
+            let mut rest = token.clone();
             loop {
-                if !re.is_match(&_token) {
-                    if !_token.is_empty() {
-                        _item = format!("{}{}", _item, _token);
+                let bq = rest.find('`');
+                let dl = find_dollar_cmd(&rest);
+                match (bq, dl) {
+                    (Some(b), Some((a, e))) if a < b => {
+                        _item.push_str(&rest[..e]);
+                        rest = rest[e..].to_string();
                     }
-                    break;
+                    (Some(b), _) => match rest[b + 1..].find('`') {
+                        Some(0) => {
+                            _item.push_str(&rest[..b + 2]);
+                            rest = rest[b + 2..].to_string();
+                        }
+                        Some(n) => {
+                            let _output = run_for_substitution(sh, &rest[b + 1..b + 1 + n]);
+                            _item.push_str(&rest[..b]);
+                            _item.push_str(&_output);
+                            rest = rest[b + 2 + n..].to_string();
+                        }
+                        None => {
+                            _item.push_str(&rest);
+                            break;
+                        }
+                    },
+                    _ => {
+                        _item.push_str(&rest);
+                        break;
+                    }
                 }
-                for cap in re.captures_iter(&_token) {
-                    _head = cap[1].to_string();
-                    _tail = cap[3].to_string();
-                    _output = run_for_substitution(sh, &cap[2]);
-                }
-                _item = format!("{}{}{}", _item, _head, _output);
-                if _tail.is_empty() {
-                    break;
-                }
-                _token = _tail.clone();
+            }
+            if _item == *token {
+                idx += 1;
+                continue;
             }
             new_token = _item;
         } else {
